@@ -378,6 +378,7 @@ class Sim(object):
     def project_watcher(self, w):
         k = self.kernel
         return {"n": w.name, "ln": w.name.lower(), "st": w._status, "np": int(w.numprocesses),
+                "npbad": not isinstance(w.numprocesses, int) or isinstance(w.numprocesses, bool),
                 "sing": bool(w.singleton), "resp": bool(w.respawn),
                 "G": int(round(w.graceful_timeout * 1000)), "W": int(round(float(w.warmup_delay) * 1000)),
                 "ssig": int(w.stop_signal), "sch": bool(w.stop_children), "od": bool(w.on_demand),
@@ -565,6 +566,7 @@ class Sim(object):
              "nostop": bool(pr.get("nostop")), "graceful": bool(pr.get("graceful", True)),
              "sequential": bool(pr.get("sequential")), "start": bool(pr.get("start")),
              "raw": raw_given,
+             "nopts": len(pr.get("options")) if isinstance(pr.get("options"), dict) else 0,
              "addnp": _i((pr.get("options") or {}).get("numprocesses", 1), 1) if isinstance(pr.get("options"), dict) else 1,
              "addGp": self.polls(float((pr.get("options") or {}).get("graceful_timeout", 30.0)))
              if isinstance(pr.get("options"), dict) and isinstance((pr.get("options") or {}).get(
